@@ -11,6 +11,7 @@ open Selium
 inductive Item where
   | frame (f : Frame)
   | error (e : String)
+  | panic (site : String)   -- the decoder panicked (shown impossible by `c06_stream_total`)
   deriving Repr
 
 inductive Read where
@@ -45,7 +46,7 @@ def drain (buf : Bytes) : List Item × Option Bytes :=
     (.frame f :: r.1, r.2)
   | .ok (none, _) => ([], some buf)
   | .err e => ([.error e], none)
-  | .panic s => ([.error ("PANIC " ++ s)], none)
+  | .panic s => ([.panic s], none)
 termination_by buf.length
 
 /-- Items yielded up to the first `None`, starting in the `reading` state with `buf` buffered. -/
